@@ -18,6 +18,13 @@ import mir  # noqa: E402
 def make_copy(repo=None):
     repo = repo or extract.REPO
     d = tempfile.mkdtemp(prefix='simlint-scratch-')
+    if os.environ.get('SCRATCH_FROM_HEAD'):
+        # corpus maintenance only: take the committed tree so that concurrent edits of the working tree do not matter
+        subprocess.run('git -C %s archive HEAD src Cargo.toml build.rs .cargo | tar -x -C %s' % (repo, d),
+                       shell=True)
+        if os.path.exists(os.path.join(repo, 'Cargo.lock')):
+            shutil.copy2(os.path.join(repo, 'Cargo.lock'), os.path.join(d, 'Cargo.lock'))
+        return d
     files = subprocess.run(['git', '-C', repo, 'ls-files'], capture_output=True, text=True).stdout.split('\n')
     for f in files:
         if not f or f.startswith('target/') or f.startswith('assets/') or f.startswith('python/') or \
@@ -29,6 +36,8 @@ def make_copy(repo=None):
         dst = os.path.join(d, f)
         os.makedirs(os.path.dirname(dst), exist_ok=True)
         shutil.copy2(src, dst)
+    if os.path.exists(os.path.join(repo, 'Cargo.lock')) and not os.path.exists(os.path.join(d, 'Cargo.lock')):
+        shutil.copy2(os.path.join(repo, 'Cargo.lock'), os.path.join(d, 'Cargo.lock'))
     return d
 
 
